@@ -1,6 +1,7 @@
 import NucleoVerif.Model.Matcher
 import NucleoVerif.Spec.Matcher
 import NucleoVerif.Props.C03
+import NucleoVerif.Props.C01
 /-! # C04 — ranking quality: bounded by the true optimum, no worse than the recurrence
 
 Modelling level (DESIGN.md): `optimalDP` *is* the documented two-matrix recurrence evaluated
@@ -67,5 +68,391 @@ theorem Best.offer_stop_max (cfg : Cfg) (b : Best) (pos bonus : Nat) (ok : Bool)
       simp only [BONUS_FIRST_CHAR_MULTIPLIER, SCORE_MATCH]
       omega
     · intro hst; rename_i hns _; exact absurd hst hns
+
+open DP
+
+/-! ## upper bound: never above the true optimum -/
+
+theorem foldl_max_ge_init (l : List Nat) : ∀ (a : Nat), a ≤ l.foldl max a := by
+  induction l with
+  | nil => intro a; exact Nat.le_refl _
+  | cons x t ih => intro a; simp only [List.foldl_cons]; exact Nat.le_trans (Nat.le_max_left a x) (ih _)
+
+theorem foldl_max_ge_mem (l : List Nat) : ∀ (a : Nat) (x : Nat), x ∈ l → x ≤ l.foldl max a := by
+  induction l with
+  | nil => intro a x hx; simp at hx
+  | cons y t ih =>
+    intro a x hx
+    simp only [List.foldl_cons]
+    rcases List.mem_cons.mp hx with rfl | hx
+    · exact Nat.le_trans (Nat.le_max_right a x) (foldl_max_ge_init t _)
+    · exact ih _ x hx
+
+/-- the normalized character at absolute index `x` of a haystack suffix `cs` that starts at `base` -/
+def normAt (cfg : Cfg) (hrep : Rep) (cs : List Nat) (base x : Nat) : Nat := (cs[x - base]?.map (norm cfg hrep)).getD 0
+
+/-- every strictly increasing in-range index list whose normalized characters spell the needle is one of
+    the alignments the brute-force specification enumerates -/
+theorem mem_allAlignments (cfg : Cfg) (hrep : Rep) :
+    ∀ (cs : List Nat) (n : List Nat) (base : Nat) (is : List Nat),
+      is.Pairwise (· < ·) → (∀ x ∈ is, base ≤ x ∧ x < base + cs.length) → is.map (normAt cfg hrep cs base) = n →
+      is ∈ allAlignments cfg hrep n base cs := by
+  intro cs
+  induction cs with
+  | nil =>
+    intro n base is _ hin hmap
+    cases is with
+    | nil => cases n with
+      | nil => simp [allAlignments]
+      | cons _ _ => simp at hmap
+    | cons i0 it => have := hin i0 (by simp); simp at this; omega
+  | cons c cs ih =>
+    intro n base is hpw hin hmap
+    cases n with
+    | nil =>
+      have : is = [] := by cases is with
+        | nil => rfl
+        | cons _ _ => simp at hmap
+      subst this; simp [allAlignments]
+    | cons nc ns =>
+      cases is with
+      | nil => simp at hmap
+      | cons i0 it =>
+        have hpw' := List.pairwise_cons.mp hpw
+        simp only [List.map_cons, List.cons.injEq] at hmap
+        have hi0 := hin i0 (by simp)
+        simp only [allAlignments, List.mem_append]
+        -- shifting the suffix
+        have shift : ∀ (l : List Nat), (∀ x ∈ l, base + 1 ≤ x) → l.map (normAt cfg hrep (c :: cs) base) = l.map (normAt cfg hrep cs (base + 1)) := by
+          intro l hl
+          apply List.map_congr_left
+          intro x hx
+          have := hl x hx
+          unfold normAt
+          have e : x - base = (x - (base + 1)) + 1 := by omega
+          rw [e, List.getElem?_cons_succ]
+        by_cases h0 : i0 = base
+        · left
+          subst h0
+          have hc : norm cfg hrep c = nc := by
+            have := hmap.1
+            simpa [normAt] using this
+          rw [if_pos hc]
+          have hit : ∀ x ∈ it, i0 + 1 ≤ x := fun x hx => hpw'.1 x hx
+          have := ih ns (i0 + 1) it hpw'.2
+            (by intro x hx
+                have h1 := hit x hx
+                have h2 := hin x (by simp [hx])
+                simp only [List.length_cons] at h2
+                omega)
+            (by rw [← shift it hit]; exact hmap.2)
+          exact List.mem_map.mpr ⟨it, this, rfl⟩
+        · right
+          have hall : ∀ x ∈ i0 :: it, base + 1 ≤ x := by
+            intro x hx
+            rcases List.mem_cons.mp hx with rfl | hx
+            · omega
+            · have := hpw'.1 x hx; omega
+          apply ih (nc :: ns) (base + 1) (i0 :: it) hpw
+          · intro x hx
+            have h1 := hall x hx
+            have h2 := hin x hx
+            simp only [List.length_cons] at h2
+            omega
+          · rw [← shift (i0 :: it) hall]
+            simp only [List.map_cons, hmap.1, hmap.2]
+
+/-- **the optimal matcher never scores above the true optimum**: the value its recurrence reports is the
+    scheme's value of an alignment the brute-force specification enumerates, hence at most the maximum over
+    all alignments — every configuration with prefix preference off, every haystack, needle and window -/
+theorem C04_upper_bound (cfg : Cfg) (ext : Ext) (hrep : Rep) (h n : List Nat) (start end_ : Nat)
+    (hr : hrep = .ascii → ∀ c ∈ h, c < 128) (hpp : cfg.preferPrefix = false) (sc : Nat) (path : List Nat)
+    (hres : optimalDP cfg ext hrep h n start end_ = some (sc, path)) :
+    sc ≤ maxAlignScore cfg ext hrep h n := by
+  have inv := DP.optimalDP_eq_alignScore cfg ext hrep h n start end_ hpp sc path hres
+  have hsp := C02_optimalDP_spells_needle cfg ext hrep h n start end_ sc path hres
+  have hmem : path ∈ allAlignments cfg hrep n 0 h := by
+    apply mem_allAlignments cfg hrep h n 0 path inv.2.1
+    · intro x hx; have := (inv.2.2 x hx).2; omega
+    · rw [← hsp]
+      apply List.map_congr_left
+      intro x hx
+      have hlt := (inv.2.2 x hx).2
+      simp only [normAt, chAt, Nat.sub_zero, List.getElem?_eq_getElem hlt, Option.map_some, Option.getD_some]
+      exact (C16_cnorm_eq_norm cfg hrep h[x] (fun e => hr e _ (List.getElem_mem hlt))).symm
+  unfold maxAlignScore
+  rw [inv.1]
+  exact foldl_max_ge_mem _ 0 _ (List.mem_map.mpr ⟨path, hmem, rfl⟩)
+
+
+
+/-! ## one-character needles: the best-placed occurrence wins -/
+
+/-- the common shape of the two one-character scans (`substring_match_1_ascii` / `_non_ascii`) -/
+def scan1 (cfg : Cfg) (m : Nat → Bool) (cl : Nat → CharClass) : Best → CharClass → Nat → List Nat → Best
+  | b, _, _, [] => b
+  | b, prev, pos, x :: xs =>
+    scan1 cfg m cl (if m x then b.offer cfg pos (bonusFor cfg prev (cl x)) true else b) (cl x) (pos + 1) xs
+
+/-- the candidates of a one-character scan: (position, 16 + 2·bonus) of every matching character -/
+def cands1 (cfg : Cfg) (m : Nat → Bool) (cl : Nat → CharClass) : CharClass → Nat → List Nat → List (Nat × Nat)
+  | _, _, [] => []
+  | prev, pos, x :: xs =>
+    (if m x then [(pos, bonusFor cfg prev (cl x) * BONUS_FIRST_CHAR_MULTIPLIER + SCORE_MATCH)] else [])
+      ++ cands1 cfg m cl (cl x) (pos + 1) xs
+
+theorem cands1_pos (cfg : Cfg) (m : Nat → Bool) (cl : Nat → CharClass) :
+    ∀ (xs : List Nat) (prev : CharClass) (pos : Nat), ∀ ps ∈ cands1 cfg m cl prev pos xs,
+      pos ≤ ps.1 ∧ ∃ p c, ps.2 = bonusFor cfg p c * BONUS_FIRST_CHAR_MULTIPLIER + SCORE_MATCH := by
+  intro xs
+  induction xs with
+  | nil => intro _ _ ps h; simp [cands1] at h
+  | cons x xs ih =>
+    intro prev pos ps h
+    simp only [cands1, List.mem_append] at h
+    rcases h with h | h
+    · split at h
+      · simp only [List.mem_singleton] at h; subst h; exact ⟨Nat.le_refl _, prev, cl x, rfl⟩
+      · simp at h
+    · have := ih (cl x) (pos + 1) ps h
+      exact ⟨by omega, this.2⟩
+
+/-- what a scan state knows about the candidates `S` seen so far -/
+structure ScanInv (cfg : Cfg) (b : Best) (S : List (Nat × Nat)) : Prop where
+  upper : ∀ ps ∈ S, ps.2 ≤ b.score
+  attained : b.score = 0 ∨ ((b.pos, b.score) ∈ S ∧ ∀ ps ∈ S, ps.2 = b.score → b.pos ≤ ps.1)
+  stopOK : b.stop = true → ∀ p c, bonusFor cfg p c * BONUS_FIRST_CHAR_MULTIPLIER + SCORE_MATCH ≤ b.score
+
+theorem scan1_inv (cfg : Cfg) (hb : 8 ≤ maxBonus cfg) (m : Nat → Bool) (cl : Nat → CharClass) :
+    ∀ (xs : List Nat) (b : Best) (prev : CharClass) (pos : Nat) (S : List (Nat × Nat)),
+      ScanInv cfg b S → (∀ ps ∈ S, ps.1 < pos) →
+      ScanInv cfg (scan1 cfg m cl b prev pos xs) (S ++ cands1 cfg m cl prev pos xs) := by
+  intro xs
+  induction xs with
+  | nil => intro b prev pos S h _; simpa [scan1, cands1] using h
+  | cons x xs ih =>
+    intro b prev pos S h hlt
+    simp only [scan1, cands1]
+    rw [← List.append_assoc]
+    apply ih
+    · -- one step
+      by_cases hm : m x = true
+      · simp only [hm, if_true]
+        generalize hs : bonusFor cfg prev (cl x) * BONUS_FIRST_CHAR_MULTIPLIER + SCORE_MATCH = s
+        have hstop := Best.offer_stop_max cfg b pos (bonusFor cfg prev (cl x)) true hb ⟨prev, cl x, rfl⟩ h.stopOK
+        rcases Best.offer_score cfg b pos (bonusFor cfg prev (cl x)) true with e | ⟨e1, e2, e3, _⟩
+        · -- not replaced: either stopped or the candidate is not better
+          rw [e] at hstop ⊢
+          have hle : s ≤ b.score := by
+            by_cases hst : b.stop = true
+            · rw [← hs]; exact h.stopOK hst prev (cl x)
+            · -- offer kept b although not stopped: the candidate's score is not larger
+              unfold Best.offer at e
+              simp only [hst, Bool.false_eq_true, if_false, and_true] at e
+              split at e
+              · rename_i hgt
+                have : b.score = s := by rw [← e, ← hs]
+                omega
+              · rename_i hng; rw [← hs]; omega
+          refine ⟨?_, ?_, hstop⟩
+          · intro ps hps
+            simp only [List.mem_append, List.mem_singleton] at hps
+            rcases hps with hps | hps
+            · exact h.upper ps hps
+            · subst hps; exact hle
+          · rcases h.attained with z | ⟨a1, a2⟩
+            · exact Or.inl z
+            · right
+              refine ⟨by simp [a1], ?_⟩
+              intro ps hps heq
+              simp only [List.mem_append, List.mem_singleton] at hps
+              rcases hps with hps | hps
+              · exact a2 ps hps heq
+              · subst hps; have := hlt _ a1; simp only at this ⊢; omega
+        · -- replaced by the new candidate
+          rw [hs] at e1 e3
+          refine ⟨?_, ?_, hstop⟩
+          · intro ps hps
+            simp only [List.mem_append, List.mem_singleton] at hps
+            rcases hps with hps | hps
+            · have := h.upper ps hps; omega
+            · subst hps; simp only [e1]; exact Nat.le_refl _
+          · right
+            rw [e1, e2]
+            refine ⟨by simp, ?_⟩
+            intro ps hps heq
+            simp only [List.mem_append, List.mem_singleton] at hps
+            rcases hps with hps | hps
+            · have := h.upper ps hps; omega
+            · subst hps; exact Nat.le_refl _
+      · have hm' : m x = false := by simpa using hm
+        simp only [hm', Bool.false_eq_true, if_false, List.append_nil]
+        exact h
+    · intro ps hps
+      simp only [List.mem_append] at hps
+      rcases hps with hps | hps
+      · have := hlt ps hps; omega
+      · split at hps
+        · simp only [List.mem_singleton] at hps; subst hps; simp
+        · simp at hps
+
+
+theorem substring1Ascii_go_eq (cfg : Cfg) (c : Nat) :
+    ∀ (xs : List Nat) (b : Best) (prev : CharClass) (pos : Nat),
+      substring1Ascii.go cfg c b prev pos xs = scan1 cfg (asciiEq cfg.ignoreCase c) (charClassAscii cfg) b prev pos xs := by
+  intro xs
+  induction xs with
+  | nil => intro _ _ _; rfl
+  | cons x xs ih => intro b prev pos; simp only [substring1Ascii.go, scan1]; exact ih _ _ _
+
+/-- for a one-character needle the enumerated alignments are the candidates' positions -/
+theorem allAlignments_single (cfg : Cfg) (hrep : Rep) (nc : Nat) (m : Nat → Bool) (cl : Nat → CharClass)
+    (hm : ∀ x, m x = true ↔ norm cfg hrep x = nc) :
+    ∀ (xs : List Nat) (prev : CharClass) (pos : Nat),
+      allAlignments cfg hrep [nc] pos xs = (cands1 cfg m cl prev pos xs).map (fun ps => [ps.1]) := by
+  intro xs
+  induction xs with
+  | nil => intro _ _; simp [allAlignments, cands1]
+  | cons x xs ih =>
+    intro prev pos
+    simp only [allAlignments, cands1, List.map_append]
+    rw [ih (cl x) (pos + 1)]
+    congr 1
+    by_cases hx : m x = true
+    · have := (hm x).mp hx
+      simp [hx, this]
+    · have hx' : m x = false := by simpa using hx
+      have : ¬ (norm cfg hrep x = nc) := fun e => hx ((hm x).mpr e)
+      simp [hx', this]
+
+/-- each candidate's score is the scheme's value of the one-index alignment at its position -/
+theorem cands1_alignScore (cfg : Cfg) (ext : Ext) (h : List Nat) (m : Nat → Bool) (cl : Nat → CharClass) :
+    ∀ (xs : List Nat) (prev : CharClass) (pos : Nat),
+      (∀ k c, xs[k]? = some c → h[pos + k]? = some c) → prev = prevClassAt cfg ext h pos →
+      (∀ x ∈ xs, cl x = charClass cfg ext x) →
+      ∀ ps ∈ cands1 cfg m cl prev pos xs, ps.2 = alignScore cfg ext h [ps.1] := by
+  intro xs
+  induction xs with
+  | nil => intro _ _ _ _ _ ps h; simp [cands1] at h
+  | cons x xs ih =>
+    intro prev pos hxs hprev hcl ps hps
+    have h0 : h[pos]? = some x := by simpa using hxs 0 x (by simp)
+    have hlt : pos < h.length := by
+      rcases Nat.lt_or_ge pos h.length with hl | hl
+      · exact hl
+      · rw [List.getElem?_eq_none hl] at h0; cases h0
+    simp only [cands1, List.mem_append] at hps
+    rcases hps with hps | hps
+    · split at hps
+      · simp only [List.mem_singleton] at hps
+        subst hps
+        simp only
+        unfold alignScore
+        simp only [List.getLast?_singleton, Option.getD_some, Nat.sub_self, List.take_zero, sWalk]
+        have hdrop : h.drop pos = x :: h.drop (pos + 1) := by
+          rw [List.drop_eq_getElem_cons hlt]
+          congr 1
+          rw [List.getElem?_eq_getElem hlt] at h0
+          exact Option.some.inj h0
+        rw [hdrop]
+        simp only [sInit, hcl x (by simp), hprev, C03_bonusFor_eq_spec, BONUS_FIRST_CHAR_MULTIPLIER, SCORE_MATCH]
+        have : prevClassAt cfg ext h pos = (if pos = 0 then cfg.initial else (h[pos - 1]?.map (charClass cfg ext)).getD cfg.initial) := by
+          unfold prevClassAt
+          split
+          · rfl
+          · cases h[pos - 1]? <;> rfl
+        rw [this]
+        omega
+      · simp at hps
+    · apply ih (cl x) (pos + 1) _ _ (fun y hy => hcl y (by simp [hy])) ps hps
+      · intro k c hk
+        have := hxs (k + 1) c (by simpa using hk)
+        have e : pos + (k + 1) = pos + 1 + k := by omega
+        rw [e] at this; exact this
+      · unfold prevClassAt
+        simp only [Nat.add_sub_cancel, h0, hcl x (by simp)]
+        simp
+
+theorem foldl_max_eq_of_upper_attained (l : List Nat) (v : Nat) (hu : ∀ x ∈ l, x ≤ v) (ha : v ∈ l) : l.foldl max 0 = v := by
+  have h1 : v ≤ l.foldl max 0 := foldl_max_ge_mem l 0 v ha
+  have h2 : ∀ (l : List Nat) (a : Nat), a ≤ v → (∀ x ∈ l, x ≤ v) → l.foldl max a ≤ v := by
+    intro l
+    induction l with
+    | nil => intro a ha _; simpa using ha
+    | cons x t ih =>
+      intro a ha hl
+      simp only [List.foldl_cons]
+      exact ih _ (Nat.max_le.mpr ⟨ha, hl x (by simp)⟩) (fun y hy => hl y (by simp [hy]))
+  exact Nat.le_antisymm (h2 l 0 (Nat.zero_le _) hu) h1
+
+/-- **for a one-character needle the ASCII matcher returns the true optimum, at the leftmost best-placed
+    occurrence** — every configuration whose largest boundary bonus is at least 8 (all presets), every
+    ASCII haystack, every already-normalized needle character.  (The early "cannot get better" exit is
+    sound because no bonus exceeds `max_bonus`; the repaired defect F3 was exactly a wrong constant there.) -/
+theorem C04_one_char_optimum_ascii (cfg : Cfg) (ext : Ext) (h : List Nat) (c : Nat)
+    (hb : 8 ≤ maxBonus cfg) (hasc : ∀ x ∈ h, x < 128) (hc : normAscii cfg c = c) :
+    match substring1Ascii cfg ext h c with
+    | none => allAlignments cfg .ascii [c] 0 h = []
+    | some (sc, is) =>
+      sc = maxAlignScore cfg ext .ascii h [c] ∧
+      ∃ p, is = [p] ∧ [p] ∈ allAlignments cfg .ascii [c] 0 h ∧ alignScore cfg ext h [p] = sc ∧
+        ∀ q, [q] ∈ allAlignments cfg .ascii [c] 0 h → alignScore cfg ext h [q] = sc → p ≤ q := by
+  have hm : ∀ x, asciiEq cfg.ignoreCase c x = true ↔ norm cfg .ascii x = c := fun x => asciiEq_iff_norm cfg c x hc
+  have hall := allAlignments_single cfg .ascii c (asciiEq cfg.ignoreCase c) (charClassAscii cfg) hm h cfg.initial 0
+  have hsc := cands1_alignScore cfg ext h (asciiEq cfg.ignoreCase c) (charClassAscii cfg) h cfg.initial 0
+    (by intro k c hk; simpa using hk) (by simp [prevClassAt])
+    (by intro x hx; simp [charClass, hasc x hx])
+  have inv := scan1_inv cfg hb (asciiEq cfg.ignoreCase c) (charClassAscii cfg) h ⟨0, 0, false⟩ cfg.initial 0 []
+    ⟨by simp, Or.inl rfl, by simp⟩ (by simp)
+  simp only [List.nil_append] at inv
+  unfold substring1Ascii
+  simp only
+  rw [substring1Ascii_go_eq]
+  generalize scan1 cfg (asciiEq cfg.ignoreCase c) (charClassAscii cfg) ⟨0, 0, false⟩ cfg.initial 0 h = b at inv
+  generalize hC : cands1 cfg (asciiEq cfg.ignoreCase c) (charClassAscii cfg) cfg.initial 0 h = C at *
+  have hpos16 : ∀ ps ∈ C, 16 ≤ ps.2 := by
+    intro ps hps
+    have := (cands1_pos cfg (asciiEq cfg.ignoreCase c) (charClassAscii cfg) h cfg.initial 0 ps (by rw [hC]; exact hps)).2
+    obtain ⟨p, c', e⟩ := this
+    simp only [SCORE_MATCH] at e; omega
+  by_cases hz : b.score = 0
+  · -- score 0: no candidate at all
+    rw [if_pos hz]
+    show allAlignments cfg .ascii [c] 0 h = []
+    rw [hall]
+    cases C with
+    | nil => rfl
+    | cons ps t =>
+      have := inv.upper ps (by simp)
+      have := hpos16 ps (by simp)
+      omega
+  · rw [if_neg hz]
+    show b.score = maxAlignScore cfg ext .ascii h [c] ∧ _
+    rcases inv.attained with z | ⟨a1, a2⟩
+    · exact absurd z hz
+    · have hmaxeq : maxAlignScore cfg ext .ascii h [c] = b.score := by
+        unfold maxAlignScore
+        rw [hall, List.map_map]
+        have : (C.map ((alignScore cfg ext h) ∘ fun ps => [ps.1])) = C.map (·.2) := by
+          apply List.map_congr_left
+          intro ps hps
+          simp only [Function.comp]
+          exact (hsc ps hps).symm
+        rw [this]
+        apply foldl_max_eq_of_upper_attained
+        · intro x hx
+          obtain ⟨ps, hps, rfl⟩ := List.mem_map.mp hx
+          exact inv.upper ps hps
+        · exact List.mem_map.mpr ⟨(b.pos, b.score), a1, rfl⟩
+      refine ⟨hmaxeq.symm, b.pos, rfl, ?_, ?_, ?_⟩
+      · rw [hall]; exact List.mem_map.mpr ⟨(b.pos, b.score), a1, rfl⟩
+      · exact (hsc _ a1).symm
+      · intro q hq hqs
+        rw [hall] at hq
+        obtain ⟨ps, hps, e⟩ := List.mem_map.mp hq
+        have e' : ps.1 = q := by simpa using e
+        have := a2 ps hps (by rw [hsc ps hps, e', hqs])
+        omega
+
 
 end NucleoVerif
